@@ -83,7 +83,34 @@ def sim_runner(profile="full", quick=480, thorough=16000):
         n = ctx.n(quick, thorough)
         results = simstream.run_stream(ctx.seed, n, profile, [ctx.pid])
         absorb_sim(ctx, results, profile)
+        if ctx.tier == "thorough" and ctx.n_override is None:
+            exhaustive_small(ctx)
     return run
+
+
+def exhaustive_small(ctx):
+    """thorough tier: every model of the small scope gen.exh_spec, once (complete enumeration)"""
+    import gen
+    total = gen.exh_total()
+    keep = (ctx.evaluations, ctx.distinct_nontrivial, ctx.traces_validated, ctx.samples, ctx.matrix, ctx.distribution, ctx.rule)
+    results = simstream.run_stream(0, total, "exh", [ctx.pid])
+    ctx.evaluations = ctx.distinct_nontrivial = ctx.traces_validated = 0
+    ctx.samples, ctx.matrix = [], {}
+    absorb_sim(ctx, results, "exh")
+    ev, dn, tv, samples, matrix, dist, rule = keep
+    ctx.distribution = dict(dist, exhaustive_small_scope=dict(models=total, complete=True, **{k: v for k, v in ctx.distribution.items() if k in ("cases", "success", "failure", "with_allocation")}))
+    for ph, cell in ctx.matrix.items():
+        c0 = matrix.setdefault(ph, dict(executions=0, disagreements=0))
+        c0["executions"] += cell["executions"]
+        c0["disagreements"] += cell["disagreements"]
+        if "first" in cell:
+            c0.setdefault("first", cell["first"])
+    ctx.matrix = matrix
+    ctx.evaluations += ev
+    ctx.distinct_nontrivial += dn
+    ctx.traces_validated += tv
+    ctx.samples = samples
+    ctx.rule = rule + "; plus the complete enumeration of a small scope (<= 3 tasks, every pair unlinked or linked by one of the four kinds, work in {0,1,2}, five worker configurations, three task rules, with/without an absence step: %d models)" % total
 
 
 def absorb_sim(ctx, results, profile):
